@@ -775,8 +775,15 @@ pub fn c06(cfg: &Config, tr: &Trace, an: &Analysis, out: &mut Vec<Violation>) {
     // dispatch back: eager parser, no fail-fast, no serial scenario. A scenario
     // that has never started must not sit idle next to a free slot (retries that
     // wait for their delay are not counted).
-    let weak = !cfg.lazy && !cfg.fail_fast() && !an.scens.iter().any(|s| s.serial) && cfg.gran == Gran::L0;
+    let weak = !cfg.lazy && !cfg.fail_fast() && cfg.gran == Gran::L0;
     let mut ever_started: BTreeSet<String> = BTreeSet::new();
+    let serial_names: BTreeSet<&str> =
+        an.scens.iter().filter(|s| s.serial).map(|s| s.info.name.as_str()).collect();
+    // per serial scenario: (open attempt?, vtime of the last failed-with-retries-left Finished still waiting)
+    let mut serial_open: BTreeSet<String> = BTreeSet::new();
+    let mut serial_waiting: BTreeMap<String, (std::time::Duration, Option<std::time::Duration>)> = BTreeMap::new();
+    let mut attempt_failed: BTreeSet<(String, usize)> = BTreeSet::new();
+    let mut qi = 0usize;
     for (i, te) in tr.events.iter().enumerate() {
         // quiescent points before event i
         while let Some(&&qa) = q.peek() {
@@ -785,12 +792,31 @@ pub fn c06(cfg: &Config, tr: &Trace, an: &Analysis, out: &mut Vec<Violation>) {
                 if cfg.expect_conservation && qa == i {
                     check_conservation(limit, in_flight, total_scen - finished_total, i, out);
                 }
+                let now = tr.quiescent_vtime.get(qi).copied().unwrap_or_default();
+                qi += 1;
                 if weak && qa == i && i > 0 {
-                    let never = total_scen - ever_started.len();
+                    let never_conc = an
+                        .scens
+                        .iter()
+                        .filter(|s| !s.serial && !ever_started.contains(&s.info.name))
+                        .count();
+                    let never = never_conc;
+                    // a serial scenario may legitimately hold the others back while it runs, while it
+                    // has never started (it goes first), or once its retry is due
+                    let serial_blocks = !serial_open.is_empty()
+                        || serial_names.iter().any(|n| !ever_started.contains(*n))
+                        || serial_waiting.values().any(|(since, delay)| {
+                            delay.is_none_or(|d| now.saturating_sub(*since) >= d)
+                        });
                     let free = limit.map_or(true, |k| (in_flight as usize) < k);
                     // the run-level Started must have been seen (the runner is past its first poll)
                     let running = tr.events[..i].iter().any(|e| e.ev == Ev::Started);
-                    if running && never > 0 && free && out.iter().all(|x| x.key != "idle-next-to-free-slot") {
+                    if running
+                        && never > 0
+                        && free
+                        && !serial_blocks
+                        && out.iter().all(|x| x.key != "idle-next-to-free-slot")
+                    {
                         out.push(v(
                             "C06",
                             "idle-next-to-free-slot",
@@ -806,6 +832,33 @@ pub fn c06(cfg: &Config, tr: &Trace, an: &Analysis, out: &mut Vec<Violation>) {
         }
         if let Some((name, _, ScEv::Started)) = te.ev.scenario() {
             ever_started.insert(name.to_owned());
+        }
+        if let Some((name, retries, ev)) = te.ev.scenario() {
+            let cur = retries.map_or(0, |r| r.0);
+            if matches!(ev, ScEv::Step(_, _, _, StepEv::Failed(..)) | ScEv::Hook(_, HookEv::Failed(..))) {
+                attempt_failed.insert((name.to_owned(), cur));
+            }
+            if serial_names.contains(name) {
+                match ev {
+                    ScEv::Started => {
+                        serial_open.insert(name.to_owned());
+                        serial_waiting.remove(name);
+                    }
+                    ScEv::Finished => {
+                        serial_open.remove(name);
+                        let left = retries.map_or(0, |r| r.1);
+                        if left > 0 && attempt_failed.contains(&(name.to_owned(), cur)) {
+                            let delay = an
+                                .by_name
+                                .get(name)
+                                .and_then(|i| an.scens[*i].retry)
+                                .and_then(|r| r.1);
+                            serial_waiting.insert(name.to_owned(), (te.vtime, delay));
+                        }
+                    }
+                    _ => {}
+                }
+            }
         }
         if let Some((name, retries, ev)) = te.ev.scenario() {
             let cur = retries.map_or(0, |r| r.0);
